@@ -141,6 +141,26 @@ def extract(repo):
     defs.append(("s1Abort", conds[1]))
     if not re.search(r"if processed \{", s1):
         raise Exception("heartbeat: the decisions are no longer guarded by `if processed`")
+    # the order of the steps of the three handlers that restart the matching (on_query_change, act_rotate_mode, on_cmd_query_change)
+    STEPS = [("killReader", r"self\.reader_control\.take\(\)\s*\{\s*ctrl\.kill\(\);"),
+             ("killMatcher", r"self\.matcher_control\.take\(\)\s*\{\s*ctrl\.kill\(\);"),
+             ("clearAll", r"env\.clear_selection = ClearStrategy::Clear;"),
+             ("clearIfNotNull", r"env\.clear_selection = ClearStrategy::ClearIfNotNull;"),
+             ("resetPool", r"self\.item_pool\.reset\(\);"),
+             ("clearPool", r"self\.item_pool\.clear\(\);"),
+             ("zeroOptions", r"self\.num_options = 0;"),
+             ("startReader", r"self\.reader_control\.replace\(self\.reader\.run\("),
+             ("restartMatcher", r"self\.restart_matcher\(\);")]
+    handlers = []
+    for lean_name, sig in (("onQueryChange", "fn on_query_change(&mut self"), ("rotateMode", "fn act_rotate_mode(&mut self"),
+                           ("onCmdQueryChange", "fn on_cmd_query_change(&mut self")):
+        body = strip_verif(body_of(src, sig))
+        found = []
+        for name, pat in STEPS:
+            for m in re.finditer(pat, body):
+                found.append((m.start(), name))
+        found.sort()
+        handlers.append((lean_name, [n for _, n in found]))
     out = ["namespace SkimModel.Generated.HeartBeat", "",
            "/-- the values the conditions of the heart-beat handler are made of -/",
            "inductive Atom | rs | ic | ms | processed | mcNone | mcSome | nce | resultEmpty | select1 | exit0 | sync | one | zero",
@@ -153,7 +173,12 @@ def extract(repo):
         out.append("/-- `%s` -/" % rust)
         out.append("def %s : BExp := %s" % (name, parse(rust)))
         out.append("")
-    out += ["end SkimModel.Generated.HeartBeat", ""]
+    out += ["/-- the steps of a handler that restarts the matching, in source order -/",
+            "inductive HStep | killReader | killMatcher | clearAll | clearIfNotNull | resetPool | clearPool | zeroOptions | startReader | restartMatcher",
+            "  deriving DecidableEq, Repr", ""]
+    for lean_name, steps in handlers:
+        out.append("def %s : List HStep := [%s]" % (lean_name, ", ".join("." + x for x in steps)))
+    out += ["", "end SkimModel.Generated.HeartBeat", ""]
     return "\n".join(out)
 
 
